@@ -269,6 +269,23 @@ def long_exponent_reqs(rng, tier):
                     reqs.append("C05 u.plain_modpow %s %s %s" % (wu(b), wu(e), wu(m)))
     return reqs
 
+def tiny_modulus_reqs(rng, tier):
+    """every tiny modulus (1 … 17, 32, 64, 2^16, 2^32, 2^63, 2^64, 2^65) with every residue class of the base that fits
+    and exponents LONGER than the modulus (2^64 ± 1, 2^64, 2^128 + 3, B^3 + 1 …): group-order arguments ("reduce the
+    exponent modulo the order of the unit group") have exceptions exactly at the smallest moduli (C05-j1: modulus 4),
+    and exhaustive small tests never use exponents beyond a machine word"""
+    reqs = []
+    mods = list(range(1, 18)) + [32, 64, 1 << 16, 1 << 32, 1 << 63, 1 << 64, 1 << 65, 3 << 63, 255, 256, 257]
+    exps = [(1 << 64) - 1, 1 << 64, (1 << 64) + 1, (1 << 64) + 2, (1 << 64) + 3, (1 << 128) + 3, B ** 3 + 1, (1 << 65) + 5, rng.randrange(B, B * B) | 1]
+    for m in mods:
+        bases = list(range(0, min(m, 17) + 2)) + ([m - 1, m, m + 1, m + 3, rng.randrange(m)] if m > 17 else [])
+        for b in bases:
+            for e in (exps if tier == "thorough" else rng.sample(exps, 3) + [(1 << 64) + 1]):
+                reqs.append("C05 u.modpow %s %s %s" % (wu(b), wu(e), wu(m)))
+                if (b + e) % 3 == 0:
+                    reqs.append("C05 i.modpow %s %s %s" % (wi(-b), wi(e), wi(rng.choice([1, -1]) * m)))
+    return reqs
+
 def zero_residue_reqs(rng, tier):
     """b^e ≡ 0 (mod m) with b not a multiple of m: non-square-free moduli of special FORM (2^k − 1 with 6 | k, 2^k + 1
     with k an odd multiple of 3, B^j − 1, q²·c) and b = m / p for a prime p with p² | m — a special-form reduction that
@@ -378,6 +395,7 @@ def gen(rng, tier):
     reqs += long_exponent_reqs(rng, tier)
     reqs += cf_modinv_reqs(rng, tier)
     reqs += zero_residue_reqs(rng, tier)
+    reqs += tiny_modulus_reqs(rng, tier)
     # inv_mod_alt
     for b in [1, 3, 5, 7, MAX, MAX - 2, (1 << 63) + 1, (1 << 32) + 1, (1 << 32) - 1, (1 << 63) - 1, 0x5555555555555555]:
         reqs.append("C05 raw.inv_mod_alt %x" % b)
